@@ -59,8 +59,9 @@ impl<T> Polynomial<T> {
     #[inline]
     pub fn eval(&self, x: T) -> T
     where
-        T: Copy + Mul<Output = T> + Add<Output = T>,
+        T: Copy + Mul<Output = T> + Add<Output = T> + Zero,
     {
+        if self.coeffs.is_empty() { return T::zero(); } // the empty polynomial is the zero polynomial
         let degree = self.degree().unwrap(); //TODO unwrap
         let mut p = self.coeffs[ degree ];
         for i in (0..degree).rev() {
